@@ -348,7 +348,7 @@ func (i *interpreter) symConv(x *Sym, dst types.BasicKind) value {
 	case ssort.IsBV() && dsort.IsBV():
 		return i.val(s.Resize(x.T, dsort.Width(), ssigned), dst)
 	case ssort.IsBV() && dsort.IsFP():
-		return i.val(s.FFromInt(x.T, ssigned, dsort), dst)
+		return i.val(s.FFromInt(i.reduce(x.T), ssigned, dsort), dst)
 	case ssort.IsFP() && dsort.IsBV():
 		return i.val(s.FToInt(x.T, dsigned, dsort.Width()), dst)
 	case ssort.IsFP() && dsort.IsFP():
